@@ -33,17 +33,24 @@ class Generator(CodeGenerator):
         out = Path(ctx.get("output"))
         d = fcp.to_dict()
         return [
+            {"type": "file", "path": out / "simgen_lists" / "enums.txt", "contents": "\n".join(e["name"] for e in d.get("enums", []))},
             {"type": "file", "path": out / "simgen.json", "contents": json.dumps(d, indent=1, sort_keys=True)},
             {"type": "file", "path": out / "simgen_names.txt", "contents": "\n".join(s["name"] for s in d.get("structs", []))},
             {"type": "print", "contents": f"simgen: {len(d.get('structs', []))} structs"},
         ]
 
     def register_checks(self, verifier):
-        for category, target in CONFIG["checks"]:
-            def make(category=category, target=target):
+        for entry in CONFIG["checks"]:
+            category, target = entry[0], entry[1]
+            style = entry[2] if len(entry) > 2 else "return"
+
+            def make(category=category, target=target, style=style):
                 def check(self_, fcp, node):
                     if target is not None and _name(category, node) == target:
-                        return error(f"simgen {category} check rejects {target}", node=None)
+                        err = error(f"simgen {category} check rejects {target}", node=None)
+                        if style == "attempt":
+                            err.attempt()          # rejects by propagating the error, like code inside a @catch function
+                        return err
                     return Ok(())
                 return check
             register(verifier, category)(make())
